@@ -37,15 +37,24 @@ def gen_history(rng, model, g):
     L = int(rng.integers(3, 26))
     h = model.h
     ops = []
-    if rng.random() < 0.4:
-        # a tighter joint-deflection limit (public setter), so that in-workspace poses sit on both sides of it; re-spin first in half of them:
-        # the deflection is measured against the neutral leg directions of the *current* joint arrangement
-        ops.append({"op": "setMaxAngleDev", "rad": float(rng.uniform(0.15, 0.9))})
-        if rng.random() < 0.5:
-            ops.append({"op": "spin", "rot": float(rng.uniform(-PI, PI))})
-        for _ in range(int(rng.integers(1, 4))):
+    r0 = rng.random()
+    if r0 < 0.4:
+        # a tighter joint-deflection limit (public setter), so that in-workspace poses sit on both sides of it; re-spin first in most of
+        # them: the deflection is measured against the neutral leg directions of the *current* joint arrangement
+        ops.append({"op": "setMaxAngleDev", "rad": float(rng.uniform(0.08, 0.5))})
+        if rng.random() < 0.75:
+            ops.append({"op": "spin", "rot": float(rng.choice([-1.0, 1.0]) * rng.uniform(0.3, PI))})
+        for _ in range(int(rng.integers(3, 7))):
             ops.append({"op": "IK", "rel": splib.gen_rel_pose(rng, h).tolist(), "protect": False})
             ops.append({"op": "validate", "donothing": True})
+    elif r0 < 0.6:
+        # reach the un-invert path on purpose: stand below the base (mirror image of a workspace pose), then ask FK for those lengths
+        for _ in range(int(rng.integers(1, 3))):
+            rel = splib.gen_rel_pose(rng, h)
+            rel[2] = -rel[2]
+            ops.append({"op": "IK", "rel": rel.tolist(), "protect": True})
+            ops.append({"op": "FK", "rel_for_lengths": rel.tolist(), "mode": int(rng.integers(2)), "reverse": False, "protect": False})
+            ops.append({"op": "getters"})
     for _ in range(L):
         k = gen.pick(rng, ["IK", "IK", "IK_out", "IK_protect", "FK", "FK", "FK_out", "FK_out", "FK_out", "FK_reverse", "move", "spin", "validate", "validate_do",
                            "invjac", "static", "carry", "randomPos", "randomPos", "getters"])
@@ -298,6 +307,9 @@ def run_shard(spec, ctx):
         if rng.random() < 0.25:
             sw = [1, 0, 0, 1]
         case = {"g": g, "switches": sw, "ops": gen_history(rng, model, g)}
+        if case["ops"] and case["ops"][0]["op"] == "setMaxAngleDev":
+            sw[2] = 1           # a deflection limit is only a constraint while its switch is on
+            sw[0] = int(rng.random() < 0.3)      # and fewer leg-limit corrections in the way
         ctx.cls("switches:" + "".join(map(str, sw)))
         try:
             run_history(case, ctx, bm)
